@@ -223,6 +223,7 @@ package trace
 //@   assert@call recordingSpan.addEvent#1 : s.endTime.IsZero()
 
 // per-link attribute cap; the empty link is ignored; nothing after End
+//@ ghost var lnkAdded int
 //@ func (s *recordingSpan) AddLink(link trace.Link)
 //@   prop C04 C10
 //@   acquires s.mu
@@ -230,6 +231,12 @@ package trace
 //@   modifies s.links, elemscap(s.links.queue)
 //@   ensures s != nil && !old(s.endTime.IsZero()) ==> s.links == old(s.links)
 //@   assert@call evictedQueue[Link].add#1 : l.SpanContext == link.SpanContext
+// a link that is not added was either given to an ended (or nil) span or carried no attributes AS GIVEN - a link whose attributes
+// were all removed by the per-link cap is still a link (it is stored with its dropped count and takes part in the FIFO)
+//@   modifies ghost lnkAdded
+//@   ghost@entry : lnkAdded = 0
+//@   ghost@call evictedQueue[Link].add#1 : lnkAdded = 1
+//@   assert@return#* : lnkAdded == 1 || s == nil || !s.endTime.IsZero() || len(link.Attributes) == 0
 //@   assert@call evictedQueue[Link].add#1 : limit == 0 ==> len(l.Attributes) == 0 && l.DroppedAttributeCount == len(link.Attributes)
 //@   assert@call evictedQueue[Link].add#1 : limit > 0 && len(link.Attributes) > limit ==> len(l.Attributes) == limit && l.DroppedAttributeCount == len(link.Attributes) - limit && (forall i in 0 .. limit : l.Attributes[i] == link.Attributes[i])
 //@   assert@call evictedQueue[Link].add#1 : limit < 0 || (limit > 0 && len(link.Attributes) <= limit) ==> l.Attributes === link.Attributes && l.DroppedAttributeCount == 0
@@ -629,3 +636,17 @@ package trace
 //@   assert@call Rand.Read#1 : holds(gen.Mutex) && len($arg1) == 16
 //@   assert@call Rand.Read#2 : holds(gen.Mutex) && len($arg1) == 8
 //@   loop#2 invariant tid.IsValid()
+
+// ======================================================================== C20 span limits from the environment (span_limits.go)
+// every limit is read from ITS OWN environment variable (through the sdk/internal/env reader of that name) with ITS OWN default:
+// unlimited (-1) for the value length, 128 for every count
+//@ func NewSpanLimits() (l SpanLimits)
+//@   prop C20
+//@   overflow assumed
+//@   unchecked frame,no-panic environment readers are another package
+//@   ensures l.AttributeValueLengthLimit == env.SpanAttributeValueLength(-1)
+//@   ensures l.AttributeCountLimit == env.SpanAttributeCount(128)
+//@   ensures l.EventCountLimit == env.SpanEventCount(128)
+//@   ensures l.LinkCountLimit == env.SpanLinkCount(128)
+//@   ensures l.AttributePerEventCountLimit == env.SpanEventAttributeCount(128)
+//@   ensures l.AttributePerLinkCountLimit == env.SpanLinkAttributeCount(128)
